@@ -29,7 +29,7 @@ class _RecConn(HTTP1Connection):
         return HTTP1Connection.write_headers(self, start_line, headers, chunk)
 
 
-def make_handler(env):
+def make_handler(env, **settings):
     st = FakeStream(env.loop, b"")
     conn = _RecConn(st, False, HTTP1ConnectionParameters())
     sl = httputil.RequestStartLine("GET", "/a", "HTTP/1.1")
@@ -40,7 +40,7 @@ def make_handler(env):
     conn._read_finished = True
     req = httputil.HTTPServerRequest(method="GET", uri="/a", version="HTTP/1.1", headers=hd,
                                      connection=conn, start_line=sl)
-    app = rig.make_app([])
+    app = rig.make_app([], **settings)
     h = rig.ProgHandler(app, req)
     h._transforms = []
     return h, conn, st
@@ -90,7 +90,7 @@ _STUBS = ["handler built directly on a real HTTP1Connection over FakeStream (no 
           "(which still encodes/validates them); the client's echo is the cookie-pair before the first ';'",
           "symbolic strings are taken as bytes and decoded as latin-1 (code points 0..255)"]
 _OUTSIDE = ["code points above U+00FF (cannot be sent in a latin-1 header block at all)",
-            "expires / expires_days (clock dependent); set_signed_cookie's HMAC (C23); clear_cookie's date",
+            "symbolic expiry dates (pooled ones: h_cookie_expires); signature strength (C23); clear_cookie's date value",
             "deprecated **kwargs attributes"]
 
 
@@ -336,6 +336,109 @@ def h_cookie_history(steps: List[Tuple[int, int, int, int]]):
         assert nexp == (1 if cleared else 0), "Expires attribute count %d in %r (cleared=%r)" % (nexp, sc, cleared)
         assert sorted(got, key=lambda t: t[0]) == sorted(want, key=lambda t: t[0]), \
             "attributes %r, last successful setting asked %r (header %r)" % (attrs, want, sc)
+
+
+# =========================================================================== expires / expires_days
+import calendar  # noqa: E402
+import datetime as _rdt  # noqa: E402
+import email.utils  # noqa: E402
+
+import tornado.web  # noqa: E402
+
+FIXED_NOW = _rdt.datetime(2026, 9, 21, 14, 13, 20, tzinfo=_rdt.timezone.utc)   # = the rig's datetime.now() stub
+SECRET = "httpout-cookie-secret"
+# explicit `expires` arguments (index 0 = not given) with the instant they denote (epoch seconds)
+def _epoch(y, mo, d, h, mi, sec):
+    return calendar.timegm((y, mo, d, h, mi, sec, 0, 0, 0))
+
+
+EXPIRES_POOL = (
+    (None, None),
+    (_rdt.datetime(2030, 1, 2, 3, 4, 5, tzinfo=_rdt.timezone.utc), _epoch(2030, 1, 2, 3, 4, 5)),
+    (1900000000, 1900000000),                                               # numeric timestamp
+    (_rdt.datetime(2031, 5, 6, 7, 8, 9), _epoch(2031, 5, 6, 7, 8, 9)),       # naive datetime = UTC
+    (1700000000.0, 1700000000),                                             # float timestamp in the past
+)
+DAYS_POOL = (None, 0, 1, 30, -365, "omit")   # "omit" = argument not passed (set_signed_cookie defaults to 30)
+
+
+def _http_date(epoch):
+    """Reference formatter (stdlib, independent of tornado.httputil.format_timestamp)."""
+    return email.utils.formatdate(epoch, usegmt=True)
+
+
+def pre_expires(signed: bool, ei: int, di: int, secure: bool) -> bool:
+    return 0 <= ei < len(EXPIRES_POOL) and 0 <= di < len(DAYS_POOL) and in_shard(ei)
+
+
+@harness(
+    pre=pre_expires,
+    quick=dict(timeout=120, reach_timeout=60),
+    thorough=dict(timeout=300, reach_timeout=60),
+    nshards=dict(quick=len(EXPIRES_POOL), thorough=len(EXPIRES_POOL)),
+    reach=["explicit_expires_wins_over_days", "expires_from_days", "no_expires", "signed_with_explicit_expires",
+           "signed_default_30_days"],
+    units=["web.RequestHandler.set_cookie (expires / expires_days)", "web.RequestHandler.set_signed_cookie",
+           "web.RequestHandler.create_signed_value", "web.RequestHandler.flush", "httputil.format_timestamp",
+           "httputil.parse_cookie", "web.decode_signed_value"],
+    stubs=_STUBS + ["`expires` from a pool of concrete aware/naive datetimes and int/float timestamps, "
+                    "`expires_days` from {None, 0, 1, 30, -365, not passed}, by symbolic index; "
+                    "Application(cookie_secret=...) configured; hmac/sha256 run on concrete inputs"],
+    outside=["expires=0 / other falsy timestamps (treated by tornado as 'not given')", "time tuples",
+             "symbolic (non-pooled) dates", "signature strength (C23)"],
+)
+def h_cookie_expires(signed: bool, ei: int, di: int, secure: bool):
+    """Exactly the requested expiry: an explicit `expires` wins over `expires_days` (which
+    set_signed_cookie always forwards, default 30): one Expires = that instant; only expires_days:
+    Expires = now + days; neither: no Expires.  Signed values read back through decode_signed_value."""
+    expires, epoch = EXPIRES_POOL[ei]
+    days = DAYS_POOL[di]
+    kw = {}
+    if expires is not None:
+        kw["expires"] = expires
+    if days != "omit":
+        kw["expires_days"] = days
+    if secure:
+        kw["secure"] = True
+    with install() as env:
+        h, conn, st = make_handler(env, cookie_secret=SECRET)
+        if signed:
+            h.set_signed_cookie("n", "v", **kw)
+        else:
+            h.set_cookie("n", "v", **kw)
+        h.finish()
+        cookies = conn.rec_cookies
+    assert len(cookies) == 1, "expected exactly one Set-Cookie, got %r" % (cookies,)
+    pair, attrs = split_set_cookie(cookies[0])
+    back = httputil.parse_cookie(pair)
+    assert list(back) == ["n"], "reads back as %r" % (back,)
+    if signed:
+        dec = tornado.web.decode_signed_value(SECRET, "n", back["n"])
+        assert dec == b"v", "signed value reads back as %r" % (dec,)
+    else:
+        assert back["n"] == "v"
+    eff_days = (30 if signed else None) if days == "omit" else days
+    if epoch is not None:
+        want_exp = _http_date(epoch)
+        if eff_days is not None:
+            reached("explicit_expires_wins_over_days")
+        if signed:
+            reached("signed_with_explicit_expires")
+    elif eff_days is not None:
+        want_exp = _http_date(calendar.timegm((FIXED_NOW + _rdt.timedelta(days=eff_days)).utctimetuple()))
+        reached("expires_from_days")
+        if signed and days == "omit":
+            reached("signed_default_30_days")
+    else:
+        want_exp = None
+        reached("no_expires")
+    want = [("path", "/")]
+    if want_exp is not None:
+        want.append(("expires", want_exp))
+    if secure:
+        want.append(("secure", None))
+    assert sorted(attrs, key=lambda t: t[0]) == sorted(want, key=lambda t: t[0]), \
+        "attributes %r, requested %r (call kwargs %r, signed=%r)" % (attrs, want, kw, signed)
 
 
 def pre_maxage(max_age: int) -> bool:
